@@ -102,6 +102,9 @@ func addSizeAttrs(t *wgen.Type, r *run.Rng) {
 		addSizeAttrs(t.Members[i].Type, r)
 		if r.Chance(1, 8) && !t.Members[i].Type.HasRuntimeArray() {
 			t.Members[i].Size = wlayout.SizeOf(t.Members[i].Type) + 4*r.Range(0, 5)
+			if t.Members[i].AttrSuffix == "" {
+				t.Members[i].AttrSuffix = []string{"", "", "u", "i"}[r.Intn(4)]
+			}
 		}
 	}
 }
